@@ -22,7 +22,7 @@ pub fn def() -> CheckDef {
         },
         gen,
         run,
-        rule: "every fourth case is a 'sibling churn' (5-9 data-bearing siblings created and removed in drawn orders); the others are seeded histories of mostly successful operations (structure, whole-stream writes, handle writes and set_len, metadata, reopen), <= 40 ops; the first few cases of a run are 'large' histories that force several FAT sectors, a DIFAT sector (V3, > 7.2 MB), several directory and MiniFAT sectors. After every successful mutating op the independent checker imgck judges rules R1-R10 on the byte image and its logical dump must equal the model. Non-trivial: >= 1 successful mutation and >= 1 image check; distinct = distinct (seam log, final image) hash.",
+        rule: "every fourth case is a 'sibling churn' (5-9 data-bearing siblings created and removed in drawn orders); the others are seeded histories of mostly successful operations (structure, whole-stream writes, handle writes and set_len, metadata, reopen), <= 40 ops; the first few cases of a run are 'large' histories that force several FAT sectors, a DIFAT sector (V3, > 7.2 MB), several directory and MiniFAT sectors. After every successful mutating op the independent checker imgck judges rules R1-R10 on the byte image and its logical dump must equal the model. Non-trivial: >= 1 successful mutation and >= 1 image check; distinct = distinct (seam log, final image) hash. Every tenth case is a stale-handle scenario (src/stale.rs): a handle kept open across the removal of its own stream and the reuse of its directory slot; after every call through it that returns Ok the image must still pass the checker.",
         assumptions: &["imgck (sim/src/imgck.rs) is an independent MS-CFB reader written from the specification; R5 for the root entry demands capacity (chain >= size), not equality", "sibling-order rule judged only for names from agreed case-mapping classes"],
         cpu_limit_s: 600,
         fault_kinds: "none (fault-free disk)",
